@@ -76,6 +76,13 @@ G4 == [name |-> "g4", params |-> <<"i64", "i32">>, res |-> <<"i64">>, regty |-> 
                    InsIn("neg", Reg(2), <<Mem("i64", 8, 4, 0, 1)>>),
                    [op |-> "ret", s |-> <<Reg(2)>>]>>]
 
+(* g5 (i64 v) -> i64 : logs through ext_i (9, v) and returns 2*v + 1          callback target / indirect callee *)
+G5 == [name |-> "g5", params |-> <<"i64">>, res |-> <<"i64">>, regty |-> <<"i", "i">>,
+       insns |-> <<[op |-> "call", callee |-> [k |-> "ext"], res |-> <<Reg(2)>>, args |-> <<Imm(FromNat(9)), Reg(1)>>],
+                   InsIn("add", Reg(2), <<Reg(1), Reg(1)>>), InsIn("add", Reg(2), <<Reg(2), Imm(One64)>>),
+                   [op |-> "ret", s |-> <<Reg(2)>>]>>]
+Ref(f) == [k |-> "ref", f |-> f]
+
 (* ---------------- domains of template holes ------------------------------ *)
 SmallImms == {Zero64, One64, Ones64, FromNat(2), FromNat(3), FromNat(7), FromNat(255), FromNat(256), FromNat(65535),
               <<65535, 32767, 0, 0>>, <<0, 32768, 0, 0>>, <<0, 0, 1, 0>>, MinS64, MaxS64, <<21845, 21845, 21845, 21845>>}
@@ -103,6 +110,8 @@ KindsFp == {"fbin", "fcmp", "fbr", "i2f", "f2i", "fmovm", "f2f", "callg3"}
 (* "link": the constructs MIR_link rewrites (calls to inline, allocas, jumps and branch chains, memory operands) *)
 KindsLink == {"callg1", "callg2", "callg3", "ext", "alloca", "br2", "br1", "loop", "switch", "ibin", "idx", "jmpi", "ovf", "calla"}
 Kinds == IF Vocab = "int" THEN KindsInt ELSE IF Vocab = "link" THEN KindsLink
+         ELSE IF Vocab = "exec" THEN {"callg1", "callg2", "callg3", "calla", "ext", "icall", "icall5", "cb", "jmpi", "switch", "br2", "loop",
+                                      "ibin", "alloca", "fbin", "idx"}
          ELSE IF Vocab = "single" THEN (KindsInt \cup KindsFp \cup {"calla"}) \ {"callg3"}      \* functions with at most one result
          ELSE KindsInt \cup KindsFp \cup {"calla"}
 
@@ -132,6 +141,9 @@ Holes(k) ==
     [] k = "f2f" -> <<"fmt", "fmt2", "fsrc">>
     [] k = "callg3" -> <<"ireg", "isrc">>
     [] k = "calla" -> <<"ireg", "isrc", "isrc">>
+    [] k = "icall" -> <<"ireg", "isrc", "isrc">>
+    [] k = "icall5" -> <<"ireg", "isrc">>
+    [] k = "cb" -> <<"ireg", "extid", "isrc">>
 CurFmt == cur.vals[1]       \* for fp kinds the first hole is the format
 Dom(h) ==
   CASE h = "safebin" -> SafeBin [] h = "iun" -> IntUnary [] h = "idst" -> IDst [] h = "isrc" -> ISrc [] h = "isrcreg" -> ISrcReg
@@ -187,6 +199,13 @@ Render(k, v) ==
     [] k = "f2f" -> <<InsIn(v[1] \o "2" \o v[2], Reg(CHOOSE r \in FpRegsOf(v[2]) : \A q \in FpRegsOf(v[2]) : r <= q), <<v[3]>>)>>
     [] k = "callg3" -> <<[op |-> "call", callee |-> [k |-> "func", f |-> 4], res |-> <<v[1], Reg(12)>>, args |-> <<v[2], Reg(13)>>]>>
     [] k = "calla" -> <<[op |-> "call", callee |-> [k |-> "func", f |-> 5], res |-> <<v[1]>>, args |-> <<v[2], v[3]>>]>>
+    \* indirect calls: the function address travels through a register
+    [] k = "icall" -> <<InsIn("mov", Reg(RTMP2), <<Ref(2)>>),
+                        [op |-> "call", callee |-> [k |-> "reg", r |-> RTMP2, f |-> 2], res |-> <<v[1]>>, args |-> <<v[2], v[3]>>]>>
+    [] k = "icall5" -> <<InsIn("mov", Reg(RTMP2), <<Ref(6)>>),
+                         [op |-> "call", callee |-> [k |-> "reg", r |-> RTMP2, f |-> 6], res |-> <<v[1]>>, args |-> <<v[2]>>]>>
+    \* C callback re-entering MIR: ext_cb (id, &g5, v)
+    [] k = "cb" -> <<[op |-> "call", callee |-> [k |-> "cb"], res |-> <<v[1]>>, args |-> <<v[2], Ref(6), v[3]>>]>>
 
 (* ---------------- inputs -------------------------------------------------- *)
 InGridI == {Zero64, One64, Ones64, FromNat(2), FromNat(100), MinS64, MaxS64, <<0, 32768, 0, 0>>, <<65535, 32767, 0, 0>>,
@@ -252,7 +271,7 @@ MainFunc ==
 Finalize ==
   /\ phase = "build" /\ slot = NSlots + 1 /\ cur.kind = ""
   /\ phase' = "run"
-  /\ prog' = [funcs |-> <<MainFunc, G1, G2, G3, G4>>]
+  /\ prog' = [funcs |-> <<MainFunc, G1, G2, G3, G4, G5>>]
   /\ mem' = <<[sz |-> BufSize, live |-> TRUE, cells |-> InitBuf]>>
   /\ frames' = <<[f |-> 1, pc |-> 1, regs |-> [r \in 1..Len(MainRegTy) |-> IF r = 1 THEN PtrV(1, 0) ELSE UndefV],
                   base |-> 1, ovf |-> NoOvf]>>
@@ -291,5 +310,5 @@ RegsTyped ==
   status = "run" =>
     \A i \in 1..Len(frames) : \A r \in 1..Len(frames[i].regs) :
       LET v == frames[i].regs[r]  ty == prog.funcs[frames[i].f].regty[r] IN
-      v.t = "u" \/ (ty = "i" /\ v.t \in {"i", "p", "l"}) \/ (ty # "i" /\ v.t = "f" /\ InFmt(v.x, ty))
+      v.t = "u" \/ (ty = "i" /\ v.t \in {"i", "p", "l", "fn"}) \/ (ty # "i" /\ v.t = "f" /\ InFmt(v.x, ty))
 =============================================================================
